@@ -210,7 +210,9 @@ pub fn check_semantics(p: &mut Program) -> Checked {
         return Checked { verdict: Verdict::Skip("lua-budget"), text, lua: Some(lua) };
     }
     let nontrivial = !rt.out.is_empty() || rt.end != End::Done;
-    let same_out = lr.out == rt.out;
+    // a printed value may contain line breaks: compare line by line
+    let ref_lines: Vec<String> = rt.out.iter().flat_map(|x| x.split('\n').map(|l| l.to_string()).collect::<Vec<_>>()).collect();
+    let same_out = lr.out == ref_lines;
     let same_end = Some(&lr.end) == want_end.as_ref();
     if same_out && same_end {
         return Checked { verdict: Verdict::Ok { nontrivial }, text, lua: Some(lua) };
@@ -232,7 +234,7 @@ pub fn check_semantics(p: &mut Program) -> Checked {
         text, rt.out, rt.end, lr.out, lr.end
     );
     let preds = structural_preds(p, Some(&lua));
-    Checked { verdict: Verdict::Fail { sig, detail, preds, expected_out: rt.out.clone(), expected_end: format!("{:?}", want_end) }, text, lua: Some(lua) }
+    Checked { verdict: Verdict::Fail { sig, detail, preds, expected_out: ref_lines.clone(), expected_end: format!("{:?}", want_end) }, text, lua: Some(lua) }
 }
 
 pub fn record(acc: &mut Stats, engine: &str, family: &str, p: &mut Program, sample: bool) {
